@@ -140,13 +140,14 @@ def problems(pool, tier):
         ps.insert(1, ("solve", (S3, gmat(3, 1, 2))))
         return ps
     if pool == "any":
-        ps = [("compute", (gmat(2, 2, 3),)), ("compute", (gmat(4, 4, 3, rank=2),)), ("compute", (gmat(3, 2, 3),)), ("compute", (gmat(2, 4, 3),))]
+        ps = [("compute", (gmat(2, 2, 3),)), ("compute", (gmat(4, 4, 3, rank=2),)), ("compute", (np.zeros((3, 2, 4)),)), ("compute", (gmat(2, 4, 3),))]
         return ps + ([("compute", (gmat(1, 3, 3),))] if tier == "thorough" else [])
     if pool == "fullrank":
-        ps = [("compute", (gmat(2, 2, 4),)), ("compute", (gmat(4, 4, 4),)), ("compute", (gmat(3, 2, 4),)), ("compute", (gmat(2, 4, 4),))]
+        # (an exactly zero matrix as third problem: degenerate input, whatever the call does a reused object must do the same as a fresh one)
+        ps = [("compute", (gmat(2, 2, 4),)), ("compute", (gmat(4, 4, 4),)), ("compute", (np.zeros((4, 3, 4)),)), ("compute", (gmat(2, 4, 4),))]
         return ps + ([("compute", (gmat(5, 3, 4),))] if tier == "thorough" else [])
     if pool == "tall":
-        ps = [("compute", (gmat(2, 2, 5),)), ("compute", (gmat(4, 4, 5),)), ("compute", (gmat(3, 2, 5),)), ("compute", (gmat(4, 2, 5),))]
+        ps = [("compute", (gmat(2, 2, 5),)), ("compute", (gmat(4, 4, 5),)), ("compute", (np.zeros((3, 2, 4)),)), ("compute", (gmat(4, 2, 5),))]
         return ps + ([("compute", (gmat(5, 3, 5),))] if tier == "thorough" else [])
     if pool == "deep":
         ps = [("compute", (gmat(3, 2, 6), [2, 3])), ("compute", (gmat(4, 2, 6), [2, 2, 4])), ("compute", (gmat(2, 2, 6), [2, 2])), ("compute", (gmat(3, 3, 6), [3, 3]))]
@@ -272,6 +273,35 @@ def battery(lib):
         ("pass_eff_qsvd", lib.qsvd.pass_eff_qsvd, (Q_(A43), 2, 1, 3), True),
         ("eigendecomposition", lib.eigen.quaternion_eigendecomposition, (Q_(Hm),), False),
         ("tridiagonalize", lib.tridiag.tridiagonalize, (Q_(Hm),), False),
+        ("householder_matrix[e1]", lib.tridiag.householder_matrix, (Q_(A43)[:3, 0].copy(), np.array([1.0, 0.0, 0.0])), False),
+        ("householder_matrix[2e1]", lib.tridiag.householder_matrix, (Q_(A43)[:3, 0].copy(), np.array([2.0, 0.0, 0.0])), False),
+        ("householder_matrix[e1+e2]", lib.tridiag.householder_matrix, (Q_(A43)[:3, 0].copy(), np.array([1.0, 1.0, 0.0])), False),
+        ("householder_matrix[0.25e3]", lib.tridiag.householder_matrix, (Q_(A43)[:3, 0].copy(), np.array([0.0, 0.0, 0.25])), False),
+        ("householder_matrix[int target]", lib.tridiag.householder_matrix, (Q_(A43)[:3, 0].copy(), np.array([0, 3, 0])), False),
+        ("householder_vector[e1]", lib.tridiag.householder_vector, (Q_(A43)[:3, 0].copy(), np.array([1.0, 0.0, 0.0])), False),
+        ("householder_vector[e2]", lib.tridiag.householder_vector, (Q_(A43)[:3, 0].copy(), np.array([0.0, 1.0, 0.0])), False),
+        ("quaternion_tril", lambda A: lib.LU.quaternion_tril(A, -1), (Q_(A33),), False),
+        ("quaternion_triu", lambda A: lib.LU.quaternion_triu(A, 1), (Q_(A33),), False),
+        ("check_hessenberg", lib.hess.check_hessenberg, (Q_(A33),), False),
+        ("is_hessenberg", lib.hess.is_hessenberg, (Q_(A33),), False),
+        ("quat_abs_scalar", u.quat_abs_scalar, (Q_(A33)[0, 1],), False),
+        ("GRSGivens", u.GRSGivens, (np.array([0.5, -0.5, 0.5, 0.5]),), False),
+        ("absQsparse", u.absQsparse, tuple(comps(A43)), False),
+        ("dotinvQsparse", u.dotinvQsparse, tuple(comps(A43)), False),
+        ("A2A0123", u.A2A0123, (np.hstack(comps(A43)),), False),
+        ("normQ", u.normQ, (Q_(A43),), False),
+        ("induced_matrix_norm_1", u.induced_matrix_norm_1, (Q_(A43),), False),
+        ("induced_matrix_norm_inf", u.induced_matrix_norm_inf, (Q_(A43),), False),
+        ("spectral_norm_2", u.spectral_norm_2, (Q_(A43),), False),
+        ("quat_null_left", u.quat_null_left, (Q_(gmat(4, 3, 9, rank=2)),), False),
+        ("quat_kernel", u.quat_kernel, (Q_(gmat(3, 4, 9, rank=2)),), False),
+        ("quaternion_eigenvalues", lib.eigen.quaternion_eigenvalues, (Q_(Hm),), False),
+        ("quaternion_eigenvectors", lib.eigen.quaternion_eigenvectors, (Q_(Hm),), False),
+        ("tensor_entrywise_abs", t.tensor_entrywise_abs, (T3,), False),
+        ("split_quat_channels", q.split_quat_channels, (img.copy(),), False),
+        ("stack_quat_channels", q.stack_quat_channels, (img[..., 0].copy(), img[..., 1].copy(), img[..., 2].copy(), img[..., 3].copy()), False),
+        ("qslst_restore_fft", q.qslst_restore_fft, (img.copy(), psf.copy(), 0.25), False),
+        ("add_awgn_snr", lambda Qi: q.add_awgn_snr(Qi, 10.0, np.random.default_rng(5)), (img.copy(),), False),
         ("hessenbergize", lib.hess.hessenbergize, (Q_(A33),), False),
         ("quaternion_schur", lambda A: lib.schur.quaternion_schur(A, max_iter=30), (Q_(A33),), False),
         ("quaternion_schur_pure", lambda A: lib.schur.quaternion_schur_pure(A, max_iter=30), (Q_(A33),), False),
@@ -404,7 +434,7 @@ def battery(lib):
 
 
 RNG_CONSUMERS = {"power_iteration_nonhermitian"}  # documented to fall back on power_iteration (random start) for Hermitian input
-SCALE_BLIND = {"ishermitian", "build_psf_gaussian", "build_psf_motion", "create_test_matrix", "generate_random_unitary_matrix"}
+SCALE_BLIND = {"ishermitian", "is_hessenberg", "GRSGivens", "build_psf_gaussian", "build_psf_motion", "create_test_matrix", "generate_random_unitary_matrix"}
 
 
 def alt_data(name, X):
